@@ -170,7 +170,9 @@ class LockStep:
         self.props = props
         self.version = cfg["version"]
         self.out = Outcome()
-        self.eng = Engine(cfg.get("flavour", "sync"), self.version, mqtt=cfg.get("mqtt", False))
+        # the gateway may be configured with another spelling of the same protocol class ("2.1.1" for "2.1"): the model,
+        # the spec and the line oracle keep the class
+        self.eng = Engine(cfg.get("flavour", "sync"), cfg.get("gw_version", self.version), mqtt=cfg.get("mqtt", False))
         self.mdl = M.Model(self.version)
         self.pending = {}       # origin step -> dict(exp, kind, concerned, t_call, burst, sleeping)
         self.eng.pre_logic = self.pre_logic
